@@ -36,3 +36,445 @@ Proof. vm_compute. reflexivity. Qed.
 
 Lemma all_tables_match : forallb table_entry_matches all_tables = true.
 Proof. vm_compute. reflexivity. Qed.
+
+(* ------------------------------------------------------------------------------------------ exponent D = E *)
+Lemma replace_D_E_idem s : replace_char "D" "E" (replace_char "E" "D" s) = replace_char "D" "E" s.
+Proof.
+  induction s as [|c r IH]; [reflexivity|].
+  cbn [replace_char]. destruct (Ascii.eqb c "E") eqn:HE.
+  - apply Ascii.eqb_eq in HE. subst c. cbn. rewrite IH. reflexivity.
+  - cbn [replace_char]. destruct (Ascii.eqb c "D") eqn:HD; rewrite IH; reflexivity.
+Qed.
+
+Lemma exponent_D_E s : convert_exponent (replace_char "E" "D" s) = convert_exponent s.
+Proof. unfold convert_exponent. rewrite replace_D_E_idem. reflexivity. Qed.
+
+Lemma replace_noD s : all_by (fun c => negb (Ascii.eqb c "D")) s = true -> replace_char "D" "E" s = s.
+Proof.
+  induction s as [|c r IH]; [reflexivity|]. cbn. intros H. apply andb_prop in H. destruct H as [H1 H2].
+  destruct (Ascii.eqb c "D"); [discriminate|]. rewrite IH by exact H2. reflexivity.
+Qed.
+
+Lemma exponent_E_plain s : all_by (fun c => negb (Ascii.eqb c "D")) s = true -> convert_exponent s = parse_decimal s.
+Proof. intros H. unfold convert_exponent. rewrite replace_noD by exact H. reflexivity. Qed.
+
+(* ------------------------------------------------------------------------------------------ matrices *)
+Section MatrixProofs.
+  Context {V : Type} (zero : V).
+  Notation pos := (fun e : nat * nat * V => (fst (fst e), snd (fst e))).
+
+  Lemma fill_entries q ls : fill zero q ls = fold_left write (entries q ls) (fun (_ _ : nat) => zero).
+  Proof.
+    unfold fill, entries. generalize (fun (_ _ : nat) => zero) as M.
+    induction ls as [|l ls IH]; intros M; [reflexivity|].
+    cbn [fold_left flat_map]. rewrite fold_left_app. apply IH.
+  Qed.
+
+  Lemma fold_write_notin (es : list (nat * nat * V)) : forall (M : @mat V) i j,
+    (forall v, ~ In (i, j, v) es) -> fold_left write es M i j = M i j.
+  Proof.
+    induction es as [|[[a b] w] es IH]; intros M i j H; [reflexivity|].
+    cbn [fold_left write]. rewrite IH.
+    - unfold upd. destruct (Nat.eqb i a && Nat.eqb j b) eqn:E; [|reflexivity].
+      apply andb_prop in E. destruct E as [E1 E2]. apply Nat.eqb_eq in E1, E2. subst.
+      exfalso. apply (H w). left. reflexivity.
+    - intros v Hv. apply (H v). right. exact Hv.
+  Qed.
+
+  Lemma fold_write_in (es : list (nat * nat * V)) : forall (M : @mat V) i j v,
+    NoDup (map pos es) -> In (i, j, v) es -> fold_left write es M i j = v.
+  Proof.
+    induction es as [|[[a b] w] es IH]; intros M i j v ND HI; [contradiction|].
+    cbn [map] in ND. inversion ND as [|x l Hx ND']. subst.
+    cbn [fold_left write]. destruct HI as [HI|HI].
+    - inversion HI. subst. rewrite fold_write_notin.
+      + unfold upd. rewrite !Nat.eqb_refl. reflexivity.
+      + intros v' Hv'. apply Hx. cbn. apply (in_map pos) in Hv'. exact Hv'.
+    - apply IH; assumption.
+  Qed.
+
+  Lemma symmetric_any q lower (ls : list (@mline V)) i j : parse_matrix zero q lower ls i j = parse_matrix zero q lower ls j i.
+  Proof.
+    unfold parse_matrix, symmetrize.
+    destruct lower; destruct (Nat.leb j i) eqn:A; destruct (Nat.leb i j) eqn:B; try reflexivity;
+      try apply Nat.leb_le in A; try apply Nat.leb_le in B; try apply Nat.leb_gt in A; try apply Nat.leb_gt in B;
+      try (exfalso; lia); assert (i = j) by lia; subst; reflexivity.
+  Qed.
+
+  Lemma place_vals_in r : forall (vs : list (option V)) c k v,
+    nth_error vs k = Some (Some v) -> In (r, c + k, v) (place_vals r c vs).
+  Proof.
+    induction vs as [|o vs IH]; intros c k v H; [destruct k; discriminate|].
+    destruct k as [|k].
+    - cbn in H. inversion H. subst. cbn. left. f_equal. f_equal. lia.
+    - cbn in H. replace (c + S k) with (S c + k) by lia.
+      destruct o; cbn [place_vals]; [right|]; apply IH; exact H.
+  Qed.
+
+  Lemma place_vals_inv r : forall (vs : list (option V)) c i j v,
+    In (i, j, v) (place_vals r c vs) -> i = r /\ exists k, j = c + k /\ nth_error vs k = Some (Some v).
+  Proof.
+    induction vs as [|o vs IH]; intros c i j v H; [contradiction|].
+    destruct o as [w|]; cbn in H.
+    - destruct H as [H|H].
+      + inversion H. subst. split; [reflexivity|]. exists 0. split; [lia|reflexivity].
+      + apply IH in H. destruct H as [Hi [k [Hj Hk]]]. split; [exact Hi|]. exists (S k). split; [lia|exact Hk].
+    - apply IH in H. destruct H as [Hi [k [Hj Hk]]]. split; [exact Hi|]. exists (S k). split; [lia|exact Hk].
+  Qed.
+
+  Lemma listed_in_entries (ls : list (@mline V)) r c vs k v :
+    In (r, c, vs) ls -> nth_error vs k = Some (Some v) -> In (r, c + k, v) (entries all_off ls).
+  Proof.
+    intros HI Hk. unfold entries. apply in_flat_map. exists (r, c, vs). split; [exact HI|].
+    cbn. apply place_vals_in. exact Hk.
+  Qed.
+
+  Lemma entries_listed (ls : list (@mline V)) i j v :
+    In (i, j, v) (entries all_off ls) -> exists c vs k, In (i, c, vs) ls /\ j = c + k /\ nth_error vs k = Some (Some v).
+  Proof.
+    unfold entries. intros H. apply in_flat_map in H. destruct H as [[[r c] vs] [HI HP]].
+    cbn in HP. apply place_vals_inv in HP. destruct HP as [Hi [k [Hj Hk]]]. subst.
+    exists c, vs, k. auto.
+  Qed.
+
+  Lemma listed_value (lower : bool) (ls : list (@mline V)) r c vs k v :
+    NoDup (map pos (entries all_off ls)) ->
+    In (r, c, vs) ls -> nth_error vs k = Some (Some v) ->
+    (if lower then c + k <= r else r <= c + k) ->
+    parse_matrix zero all_off lower ls r (c + k) = v /\ parse_matrix zero all_off lower ls (c + k) r = v.
+  Proof.
+    intros ND HI Hk Htri.
+    assert (E : parse_matrix zero all_off lower ls r (c + k) = v).
+    { unfold parse_matrix, symmetrize. rewrite fill_entries.
+      destruct lower.
+      - apply Nat.leb_le in Htri. rewrite Htri. apply fold_write_in; [exact ND|].
+        eapply listed_in_entries; eassumption.
+      - apply Nat.leb_le in Htri. rewrite Htri. apply fold_write_in; [exact ND|].
+        eapply listed_in_entries; eassumption. }
+    split; [exact E|]. rewrite symmetric_any. exact E.
+  Qed.
+
+  Lemma unlisted_zero q lower (ls : list (@mline V)) i j :
+    (forall v, ~ In (i, j, v) (entries q ls)) -> (forall v, ~ In (j, i, v) (entries q ls)) ->
+    parse_matrix zero q lower ls i j = zero.
+  Proof.
+    intros H1 H2. unfold parse_matrix, symmetrize. rewrite fill_entries.
+    destruct lower; [destruct (Nat.leb j i)|destruct (Nat.leb i j)]; rewrite fold_write_notin; auto.
+  Qed.
+End MatrixProofs.
+
+(* ------------------------------------------------------------------------------------------ regrouping *)
+Section RegroupProofs.
+  Context {R : Type} (key : R -> string).
+  Notation step := (fun g r => add_row (key r) r g).
+  Notation rows_of g := (List.concat (map snd g)).
+
+  Lemma add_row_lookup k k' (r : R) g :
+    lookup k (add_row k' r g) =
+    if String.eqb k k' then Some (match lookup k g with Some l => (l ++ [r])%list | None => [r] end) else lookup k g.
+  Proof.
+    induction g as [|[k0 rs] g IH].
+    - cbn. destruct (String.eqb k k'); reflexivity.
+    - cbn [add_row]. destruct (String.eqb k' k0) eqn:E0.
+      + apply String.eqb_eq in E0. subst k0. cbn [lookup].
+        destruct (String.eqb k k') eqn:E; reflexivity.
+      + cbn [lookup]. destruct (String.eqb k k0) eqn:E1.
+        * destruct (String.eqb k k') eqn:E; [|reflexivity].
+          apply String.eqb_eq in E, E1. subst. rewrite String.eqb_refl in E0. discriminate.
+        * exact IH.
+  Qed.
+
+  Definition pick (k : string) (rows : list R) : list R := filter (fun r => String.eqb k (key r)) rows.
+
+  Lemma fold_lookup k rows : forall g,
+    lookup k (fold_left step rows g) =
+    match lookup k g, pick k rows with
+    | Some l, f => Some (l ++ f)%list
+    | None, [] => None
+    | None, f => Some f
+    end.
+  Proof.
+    induction rows as [|r rows IH]; intros g.
+    - cbn. destruct (lookup k g); [rewrite List.app_nil_r|]; reflexivity.
+    - cbn [fold_left]. rewrite IH, add_row_lookup. unfold pick. cbn [filter]. fold (pick k rows).
+      destruct (String.eqb k (key r)).
+      + destruct (lookup k g) as [l|]; [rewrite <- List.app_assoc|]; reflexivity.
+      + reflexivity.
+  Qed.
+
+  Lemma regroup_lookup k rows :
+    lookup k (regroup key rows) = match pick k rows with [] => None | f => Some f end.
+  Proof. unfold regroup. rewrite fold_lookup. reflexivity. Qed.
+
+  Lemma add_row_perm k (r : R) g : Permutation (rows_of (add_row k r g)) (r :: rows_of g).
+  Proof.
+    induction g as [|[k0 rs] g IH].
+    - cbn. apply Permutation_refl.
+    - cbn [add_row]. destruct (String.eqb k k0).
+      + cbn [map snd List.concat]. rewrite <- List.app_assoc. cbn [app].
+        apply Permutation_sym. apply (Permutation_middle rs (rows_of g) r).
+      + cbn [map snd List.concat].
+        eapply Permutation_trans; [apply Permutation_app_head; exact IH|].
+        apply Permutation_sym. apply Permutation_middle.
+  Qed.
+
+  Lemma fold_perm rows : forall g, Permutation (rows_of (fold_left step rows g)) (rows_of g ++ rows).
+  Proof.
+    induction rows as [|r rows IH]; intros g.
+    - cbn. rewrite List.app_nil_r. apply Permutation_refl.
+    - cbn [fold_left]. eapply Permutation_trans; [apply IH|].
+      eapply Permutation_trans; [apply Permutation_app_tail; apply add_row_perm|].
+      cbn [app]. apply Permutation_middle.
+  Qed.
+
+  Lemma regroup_perm rows : Permutation (rows_of (regroup key rows)) rows.
+  Proof. unfold regroup. apply (fold_perm rows []). Qed.
+
+  Lemma add_row_keys k (r : R) g : NoDup (map fst g) -> NoDup (map fst (add_row k r g)).
+  Proof.
+    induction g as [|[k0 rs] g IH]; intros ND.
+    - cbn. constructor; [intros []|constructor].
+    - cbn [add_row]. destruct (String.eqb k k0) eqn:E; [exact ND|].
+      cbn [map fst] in *. inversion ND as [|x l Hx ND']. subst. constructor; [|apply IH; exact ND'].
+      intros HI. apply Hx. clear - HI E.
+      induction g as [|[k1 rs1] g IHg]; cbn in *.
+      + destruct HI as [HI|[]]. subst. rewrite String.eqb_refl in E. discriminate.
+      + destruct (String.eqb k k1) eqn:E1; cbn in HI; [exact HI|].
+        destruct HI as [HI|HI]; [left; exact HI|right; apply IHg; exact HI].
+  Qed.
+
+  Lemma regroup_keys rows : NoDup (map fst (regroup key rows)).
+  Proof.
+    unfold regroup. assert (H : NoDup (map fst (@nil (string * list R)))) by constructor.
+    revert H. generalize (@nil (string * list R)) as g.
+    induction rows as [|r rows IH]; intros g H; [exact H|].
+    cbn [fold_left]. apply IH. apply add_row_keys. exact H.
+  Qed.
+End RegroupProofs.
+
+(* ------------------------------------------------------------------------------------------ block round trip *)
+(* a data line carrying [texts] in the columns of table [t]: blanks up to every start column *)
+Fixpoint render_fields (t : table) (pos : nat) (texts : list string) : string :=
+  match t, texts with
+  | f :: t', x :: xs => spaces (f_start f - pos) ++ x ++ render_fields t' (f_start f + len x) xs
+  | _, _ => ""
+  end.
+Definition render_line (t : table) (texts : list string) : string := render_fields t 0 texts.
+
+(* the texts fit: one per field, trimmed, each ending before the next start column *)
+Fixpoint fits (t : table) (pos : nat) (texts : list string) : Prop :=
+  match t, texts with
+  | [], [] => True
+  | f :: t', x :: xs => pos <= f_start f /\ trimmed x = true /\ fits t' (f_start f + len x) xs
+  | _, _ => False
+  end.
+
+Lemma cut_render (limit : nat) (tail : string) : all_space tail = true ->
+  forall t texts pos pre,
+  len pre = pos -> fits t pos texts -> len (pre ++ render_fields t pos texts) <= limit ->
+  cut_fields t limit (pre ++ render_fields t pos texts ++ tail) = texts.
+Proof.
+  intros Htail. induction t as [|f t' IH]; intros texts pos pre Hpre Hfit Hlen.
+  - destruct texts; [reflexivity|contradiction].
+  - destruct texts as [|x xs]; [contradiction|].
+    cbn [fits] in Hfit. destruct Hfit as [Hpos [Htrim Hfit']].
+    cbn [render_fields] in *. set (s := f_start f) in *.
+    set (pre' := pre ++ spaces (s - pos)).
+    assert (Hpre' : len pre' = s) by (unfold pre'; rewrite len_app, len_spaces; lia).
+    set (R := render_fields t' (s + len x) xs) in *.
+    assert (Hline : pre ++ (spaces (s - pos) ++ x ++ R) ++ tail = (pre' ++ x) ++ R ++ tail).
+    { unfold pre'. rewrite !Text.app_assoc. reflexivity. }
+    assert (Hlen' : len ((pre' ++ x) ++ R) <= limit).
+    { unfold pre'. rewrite !Text.app_assoc. exact Hlen. }
+    cbn [cut_fields]. f_equal.
+    + (* the first column *)
+      rewrite Hline. rewrite Text.app_assoc.
+      set (e := match t' with g :: _ => f_start g | [] => limit end).
+      assert (He : s + len x <= e).
+      { unfold e. destruct t' as [|g t''].
+        - rewrite len_app, len_app in Hlen'. lia.
+        - destruct xs as [|x' xs']; [contradiction|]. cbn [fits] in Hfit'. lia. }
+      assert (Hs : slice s e (pre' ++ x ++ R ++ tail) = slice 0 (e - s) (x ++ R ++ tail)).
+      { rewrite <- (slice_app_shift pre' 0 (e - s)). f_equal; lia. }
+      fold s. rewrite Hs. unfold slice. rewrite drop_0, Nat.sub_0_r.
+      rewrite take_app. rewrite (take_all (e - s) x) by lia.
+      rewrite strip_app_space; [apply strip_trimmed; exact Htrim|].
+      unfold e, R. destruct t' as [|g t''].
+      * destruct xs; [|contradiction]. cbn [render_fields]. apply all_by_take. exact Htail.
+      * destruct xs as [|x' xs']; [contradiction|]. cbn [fits] in Hfit'. cbn [render_fields].
+        rewrite !Text.app_assoc.
+        replace (f_start g - s - len x) with (len (spaces (f_start g - (s + len x))))
+          by (rewrite len_spaces; lia).
+        rewrite take_app_len. apply all_space_spaces.
+    + rewrite Hline. apply IH.
+      * rewrite len_app. lia.
+      * exact Hfit'.
+      * exact Hlen'.
+Qed.
+
+Lemma break_hash_off l : cut_comment all_off l = l.
+Proof. reflexivity. Qed.
+
+Lemma all_space_nl : all_space nl = true.
+Proof. reflexivity. Qed.
+
+Lemma line_texts_render t limit texts :
+  fits t 0 texts -> len (render_line t texts) <= limit ->
+  line_texts all_off t limit (render_line t texts) = texts.
+Proof.
+  intros Hf Hl. unfold line_texts, render_line. rewrite break_hash_off.
+  apply (cut_render limit nl all_space_nl t texts 0 "" eq_refl Hf). exact Hl.
+Qed.
+
+Lemma fold_max_ge (l : list nat) a x : In x l -> x <= fold_right Nat.max a l.
+Proof.
+  induction l as [|y l IH]; [intros []|]. intros [H|H]; cbn [fold_right].
+  - subst. apply Nat.le_max_l.
+  - etransitivity; [apply IH; exact H|apply Nat.le_max_r].
+Qed.
+
+Lemma line_limit_ge lines l : In l lines -> len l < line_limit all_off lines.
+Proof.
+  intros H. unfold line_limit. cbn [q_limit81 all_off].
+  assert (len l + 1 <= fold_right Nat.max 81 (map (fun l => len l + 1) lines)).
+  { apply fold_max_ge. apply (in_map (fun l => len l + 1)) in H. exact H. }
+  lia.
+Qed.
+
+Lemma parse_render t rows :
+  Forall (fits t 0) rows ->
+  parse_lines all_off false t (map (render_line t) rows) = map (convert_row t) rows.
+Proof.
+  intros H. unfold parse_lines. cbn [negb].
+  set (limit := line_limit all_off (map (render_line t) rows)).
+  assert (Hl : forall r, In r rows -> len (render_line t r) <= limit).
+  { intros r Hr. apply Nat.lt_le_incl. apply line_limit_ge. apply in_map. exact Hr. }
+  clearbody limit. induction rows as [|r rows IH]; [reflexivity|].
+  inversion H as [|a b Ha Hb]. subst. cbn [map]. f_equal.
+  - rewrite line_texts_render; [reflexivity|exact Ha|apply Hl; left; reflexivity].
+  - apply IH; [exact Hb|intros r' Hr'; apply Hl; right; exact Hr'].
+Qed.
+
+(* ------------------------------------------------------------------------------------------ quirk witnesses *)
+Definition wit_table : table := table_of [("code", 1, "U4", ""); ("text", 6, "U120", "")].
+
+Lemma hash_refuted :
+  line_texts (mkQ true false false false) wit_table 81 " AB#D some text" <> line_texts all_off wit_table 81 " AB#D some text".
+Proof. vm_compute. discriminate. Qed.
+
+Definition wit_long : string := "0123456789012345678901234567890123456789012345678901234567890123456789012345678901234".
+Lemma limit81_refuted :
+  fits wit_table 0 ["ABCD"; wit_long] /\
+  parse_lines (mkQ false true false false) false wit_table [render_line wit_table ["ABCD"; wit_long]]
+  <> [convert_row wit_table ["ABCD"; wit_long]].
+Proof. split; [vm_compute; auto|vm_compute; discriminate]. Qed.
+
+Lemma compact_refuted :
+  parse_matrix 0%Z (mkQ false false true false) true [(3, 1, [Some 4%Z; None; Some 6%Z])] 3 3 <> 6%Z /\
+  parse_matrix 0%Z all_off true [(3, 1, [Some 4%Z; None; Some 6%Z])] 3 3 = 6%Z.
+Proof. split; vm_compute; [discriminate|reflexivity]. Qed.
+
+(* ------------------------------------------------------------------------------------------ epochs *)
+Definition dchar (d : Z) : ascii := ascii_of_nat (48 + Z.to_nat d).
+Definition d2 (n : Z) : string := String (dchar (n / 10)) (String (dchar (n mod 10)) "").
+Definition d3 (n : Z) : string := String (dchar (n / 100)) (d2 (n mod 100)).
+Definition zero_chars (yy doy : Z) : bool := (d2 yy =? "00") && (d3 doy =? "000").
+
+(* the rule of the format: YY <= 50 -> 20YY, YY > 50 -> 19YY; DDD day of year (000 read as 001 unless the whole
+   field is 00:000:00000, which means "open"); SSSSS seconds of day added *)
+Definition epoch_expected (yy doy : Z) (sec_text_zero : bool) (sec : Z) : option Z :=
+  if ((yy =? 0) && (doy =? 0))%Z && sec_text_zero then None
+  else if (366 <? doy)%Z then None
+  else Some (epoch_seconds ((if (50 <? yy)%Z then 1900 else 2000) + yy) (Z.max doy 1) sec).
+
+Lemma convert_epoch_chars a1 a2 b1 b2 b3 s5 :
+  convert_epoch (String a1 (String a2 (String ":" (String b1 (String b2 (String b3 (String ":" s5))))))) =
+  epoch_parts ((String a1 (String a2 "") =? "00") && (String b1 (String b2 (String b3 "")) =? "000") && (s5 =? "00000"))
+              (String a1 (String a2 "")) ":" (String b1 (String b2 (String b3 ""))) s5.
+Proof.
+  unfold convert_epoch. cbn.
+  destruct (Ascii.eqb a1 "0"), (Ascii.eqb a2 "0"), (Ascii.eqb b1 "0"), (Ascii.eqb b2 "0"), (Ascii.eqb b3 "0"); reflexivity.
+Qed.
+
+Lemma epoch_parts_sec z a sep d s :
+  epoch_parts z a sep d s =
+  match epoch_parts z a sep d "0", digits_val s with
+  | Some b, Some sv => Some (b + sv)%Z
+  | _, _ => None
+  end.
+Proof.
+  unfold epoch_parts.
+  destruct (if Nat.eqb (len a) 2 then digits_val a else None) as [y2|]; [|reflexivity].
+  destruct (if (negb z && (d =? "000") || (sep =? ":")) &&
+               Nat.eqb (len (if negb z && (d =? "000") then "001" else d)) 3
+            then parse_doy (if negb z && (d =? "000") then "001" else d) else None) as [dv|]; [|reflexivity].
+  change (digits_val "0") with (Some 0%Z). cbv iota beta.
+  destruct (digits_val s) as [sv|]; [|reflexivity].
+  f_equal. unfold epoch_seconds. lia.
+Qed.
+
+Definition optZ_eqb (a b : option Z) : bool :=
+  match a, b with Some x, Some y => Z.eqb x y | None, None => true | _, _ => false end.
+Lemma optZ_eqb_eq a b : optZ_eqb a b = true -> a = b.
+Proof. destruct a, b; cbn; try discriminate; [intros H; apply Z.eqb_eq in H; subst|]; reflexivity. Qed.
+
+Definition Zs (n : nat) : list Z := map Z.of_nat (seq 0 n).
+Lemma Zs_in n z : (0 <= z < Z.of_nat n)%Z -> In z (Zs n).
+Proof. intros H. unfold Zs. apply in_map_iff. exists (Z.to_nat z). split; [lia|]. apply in_seq. lia. Qed.
+
+Definition epoch_case (yy doy : Z) (b : bool) : bool :=
+  optZ_eqb (epoch_parts (zero_chars yy doy && b) (d2 yy) ":" (d3 doy) "0") (epoch_expected yy doy b 0).
+
+Lemma epoch_cases_all :
+  forallb (fun yy => forallb (fun doy => epoch_case yy doy true && epoch_case yy doy false) (Zs 1000)) (Zs 100) = true.
+Proof. vm_compute. reflexivity. Qed.
+
+Lemma epoch_rule yy doy s5 sec :
+  (0 <= yy < 100)%Z -> (0 <= doy < 1000)%Z -> digits_val s5 = Some sec ->
+  convert_epoch (d2 yy ++ ":" ++ d3 doy ++ ":" ++ s5) = epoch_expected yy doy (s5 =? "00000") sec.
+Proof.
+  intros Hy Hd Hs.
+  pose proof (convert_epoch_chars (dchar (yy / 10)) (dchar (yy mod 10)) (dchar (doy / 100))
+                (dchar (doy mod 100 / 10)) (dchar (doy mod 100 mod 10)) s5) as HA.
+  etransitivity; [exact HA|].
+  change (epoch_parts (zero_chars yy doy && (s5 =? "00000")) (d2 yy) ":" (d3 doy) s5 =
+          epoch_expected yy doy (s5 =? "00000") sec).
+  rewrite epoch_parts_sec, Hs.
+  pose proof epoch_cases_all as HC. rewrite forallb_forall in HC.
+  specialize (HC yy (Zs_in 100 yy Hy)). rewrite forallb_forall in HC.
+  specialize (HC doy (Zs_in 1000 doy Hd)). apply andb_prop in HC. destruct HC as [HT HF].
+  assert (HB : epoch_parts (zero_chars yy doy && (s5 =? "00000")) (d2 yy) ":" (d3 doy) "0" =
+               epoch_expected yy doy (s5 =? "00000") 0).
+  { destruct (s5 =? "00000"); apply optZ_eqb_eq; [exact HT|exact HF]. }
+  rewrite HB. unfold epoch_expected.
+  destruct (((yy =? 0) && (doy =? 0))%Z && (s5 =? "00000")); [reflexivity|].
+  destruct (366 <? doy)%Z; [reflexivity|]. f_equal. unfold epoch_seconds. lia.
+Qed.
+
+(* ------------------------------------------------------------------------------------------ degrees minutes seconds *)
+Lemma dms_rule d m s nd qd nm qm ns qs :
+  is_token d = true -> is_token m = true -> is_token s = true ->
+  parse_decimal d = Some (nd, qd) -> parse_decimal m = Some (nm, qm) -> parse_decimal s = Some (ns, qs) ->
+  convert_dms (join " " [d; m; s]) =
+  Some (Qred (if nd then - (Qabs qd + qm * (1 # 60) + qs * (1 # 3600)) else (Qabs qd + qm * (1 # 60) + qs * (1 # 3600))))%Q.
+Proof.
+  intros Td Tm Ts Hd Hm Hs. unfold convert_dms.
+  rewrite split_join by (repeat constructor; assumption).
+  cbn [map]. rewrite Hd, Hm, Hs. reflexivity.
+Qed.
+
+Lemma parse_decimal_minus r nd q : parse_decimal (String "-" r) = Some (nd, q) -> nd = true.
+Proof.
+  unfold parse_decimal. cbn [split_sign].
+  destruct (break (fun c => is_char "e" c || is_char "E" c) r) as [mant ex].
+  destruct (break (is_char ".") mant) as [ip fpo].
+  destruct (negb (all_digits ip && all_digits match fpo with Some f => f | None => "" end) ||
+            Nat.eqb (len ip + len match fpo with Some f => f | None => "" end) 0); [discriminate|].
+  destruct ex as [t|].
+  - destruct (split_sign t) as [eneg ed]. destruct (digits_val ed); [|discriminate]. intros H. inversion H. reflexivity.
+  - intros H. inversion H. reflexivity.
+Qed.
+
+Lemma dms_minus_zero : convert_dms "-0 06 46.0" = Some (-203 # 1800)%Q (* -(6/60 + 46/3600) *) /\ convert_dms " -00 25 18.6" = convert_dms "-0 25 18.6".
+Proof. split; vm_compute; reflexivity. Qed.
+
